@@ -3,6 +3,7 @@ package main
 import (
 	"fmt"
 	"go/token"
+	"go/types"
 	"sort"
 	"strings"
 
@@ -55,8 +56,38 @@ func addrPath(a ssa.Value) string {
 			return ""
 		}
 		return b + "." + fieldName(x.X.Type(), x.Field)
+	case *ssa.UnOp:
+		// a pointer loaded from a trackable location: the pointee is named "*<path>"
+		if x.Op == token.MUL {
+			if _, isPtr := x.Type().Underlying().(*types.Pointer); isPtr {
+				if p := addrPath(x.X); p != "" {
+					return "*" + p
+				}
+			}
+		}
+	case *ssa.Field:
+		// a pointer stored in a field of an (immutable) struct VALUE, e.g. a by-value receiver:
+		// the location it points to is named after the struct value and the field
+		if _, isPtr := x.Type().Underlying().(*types.Pointer); isPtr {
+			return "*" + valueRoot(x.X) + "." + fieldName(x.X.Type(), x.Field)
+		}
 	}
 	return ""
+}
+
+// valueRoot names an SSA struct value.
+func valueRoot(v ssa.Value) string {
+	switch x := v.(type) {
+	case *ssa.Parameter:
+		return x.Name()
+	case *ssa.UnOp:
+		if x.Op == token.MUL {
+			if p := addrPath(x.X); p != "" {
+				return p
+			}
+		}
+	}
+	return "%" + v.Name()
 }
 
 // basePath: the location denoted by a pointer-typed (or addressable struct) value.
